@@ -7,6 +7,8 @@ fail=0
 for d in seeded/C*/ ; do
     id=$(basename "$d")
     prop=$(python3 -c "import json;print(json.load(open('$d/meta.json'))['breaks_property'])")
+    retired=$(python3 -c "import json;print(json.load(open('$d/meta.json')).get('retired',''))")
+    if [ -n "$retired" ]; then echo "$id -> RETIRED ($retired)" | cut -c1-230; continue; fi
     line=$(tools/seeded_run.sh "/verif/$d/patch.diff" quick "$prop" | head -1 | cut -c1-230)
     # a change recorded as not caught (meta.json: documented_not_caught) is reported as such and does not fail the regression
     known=$(python3 -c "import json;print(json.load(open('$d/meta.json')).get('documented_not_caught',''))")
